@@ -76,8 +76,11 @@ class StructuredGrammaticalEvolutionRepresentation(
         self.gene_length = gene_length
 
     def create_genotype(self, random: RandomSource, **kwargs) -> Genotype:
-        nodes = [str(node) for node in self.grammar.all_nodes]
-        for node in self.grammar.all_nodes:
+        # A set of types iterates in memory-address order: sort it, so that the same seed gives the same genotype
+        # in every process (the number of gene lists drawn below depends on the order the nodes are visited in).
+        all_nodes = sorted(self.grammar.all_nodes, key=lambda t: (t.__module__, t.__qualname__))
+        nodes = [str(node) for node in all_nodes]
+        for node in all_nodes:
             arguments = get_arguments(node)
             for _, arg in arguments:
                 if is_generic(arg):
